@@ -103,6 +103,32 @@ pub fn generic(seed: u64, thorough: bool, out: &mut Out) {
         }
     }
     out.ev(json!({"ev": "Zeta", "table": jp(&vh::zeta_table_mont()), "probes": nprobe}));
+    // envelope witness for the FORWARD transform: a polynomial whose lazy (unreduced) output coefficient 0 is as
+    // large as the bounds model allows: w[0] = gamma1 and, for every layer, the one coefficient that feeds slot 0
+    // chosen so that its Montgomery product with that layer's zeta is maximal.  It drives to_mont to the edge of
+    // its documented input range (|x| < 67058539), which in-range random data never approaches.
+    let zt = vh::zeta_table_mont();
+    for g1 in [1i32 << 17, 1 << 19] {
+        for sign in [1i32, -1] {
+            let mut w = [0i32; 256];
+            w[0] = sign * g1;
+            let (mut m, mut len) = (0usize, 128usize);
+            while len >= 1 {
+                m = 2 * m + 1 - if m == 0 { 0 } else { 0 };           // zeta index of the block that contains slot 0 at this layer
+                let midx = 256 / (2 * len);                            // = 1, 2, 4, ... (first block of the layer)
+                let zeta = i64::from(zt[midx]);
+                let mut best = (0i32, 0i32);
+                let mut v = -g1 + 1;
+                while v <= g1 { let t = vh::mont_reduce(zeta * i64::from(v)); if sign * t > best.0 { best = (sign * t, v); } v += 1; }
+                w[len] = best.1;
+                let _ = m;
+                len >>= 1;
+            }
+            ev_ntt(out, &format!("envelope witness gamma1={} sign={}", g1, sign), &w);
+            let a = rand_poly(&mut p, 0, Q - 1);
+            ev_product(out, &format!("full-range a x forward-envelope witness (gamma1={}, sign={})", g1, sign), &a, &w);
+        }
+    }
     // full products against the schoolbook definition: challenge-like x secret/public ranges
     let nprod = if thorough { 6 } else { 1 };
     for (name, lo, hi) in ranges {
